@@ -134,6 +134,17 @@ def run_cases(chk, tier):
             check_array(chk, kind, st, arr[3:9], els[3:9], hist=["[3:9]"], r=r)
             check_array(chk, kind, st, arr[len(els) - 4:], els[len(els) - 4:], hist=["tail"], r=r)
         chk.sample(dict(kind=kind, family="all ring directions + degenerate rings", elements=els[:4]), cap=6)
+        # rings of area one half (the smallest a lattice triangle can have), either direction, as shell and as hole
+        t_ccw, t_cw = [0, 0, 1, 0, 0, 1, 0, 0], [0, 0, 0, 1, 1, 0, 0, 0]
+        h_ccw, h_cw = [2, 2, 3, 2, 2, 3, 2, 2], [2, 2, 2, 3, 3, 2, 2, 2]
+        big = geo.flat(shell)
+        half = [wrap(x) for x in ([t_ccw], [t_cw], [big, h_ccw], [big, h_cw], [geo.flat(shell[::-1]), h_ccw, [4, 4, 4, 5, 5, 4, 4, 4]], [t_cw, []])] + [None]
+        if kind == "multipolygon":
+            half += [[[t_cw], [big, h_ccw]], [[t_ccw], [t_cw]]]
+        for st in ("float64", "int64", "int32", "int16"):
+            check_array(chk, kind, st, geo.make_array(kind, half, st), half, hist=["half-area rings"], r=r)
+            check_array(chk, kind, st, geo.make_array(kind, half, st)[1:5], half[1:5], hist=["half-area rings", "[1:5]"], r=r)
+        chk.count("half-area-rings")
         # the same rings far from the origin (coordinates and every term x*(dy) of the coded sum stay exactly representable):
         # the direction of a ring does not depend on where it lies
         for (ox, oy) in ((2 ** 28, -2 ** 27), (10 ** 8, 10 ** 8 + 1), (-2 ** 36, 2 ** 40), (r.randint(2 ** 26, 2 ** 34), -r.randint(2 ** 26, 2 ** 34))):
